@@ -94,13 +94,19 @@ func (s *Server) VerifTableSnapshot() (nodes []VerifNode, addrIndex map[string][
 	return
 }
 
-// VerifAge makes every recorded time d older (zero times stay zero: "never").
+// VerifAge makes every recorded time d older (zero times stay zero: "never"). A negative d makes
+// them younger, but never younger than now: the harness uses it to take the wall-clock time that
+// passed between two events of a history out of the recorded times.
 func (s *Server) VerifAge(d time.Duration) {
 	s.mu.Lock()
 	defer s.mu.Unlock()
+	now := time.Now()
 	sub := func(t *time.Time) {
 		if !t.IsZero() {
 			*t = t.Add(-d)
+			if d < 0 && t.After(now) {
+				*t = now
+			}
 		}
 	}
 	for i := range s.table.buckets {
